@@ -93,3 +93,12 @@ func vpInSet(v uint8, set ...uint8) bool {
 	}
 	return false
 }
+
+// vpSameStrC asserts a == b byte by byte with a concrete loop; for harnesses whose lengths are
+// concretised (every comparison then folds or is a small query).
+func vpSameStrC(a, b string, id string) {
+	vpAssert(len(a) == len(b), id+".len")
+	for i := 0; i < len(a) && i < len(b); i++ {
+		vpAssert(a[i] == b[i], id)
+	}
+}
